@@ -814,23 +814,92 @@ theorem fail_signals_all (e e' : ESt) (h : estep e .fail = some e') :
   simp at hp
   obtain ⟨q, _, rfl⟩ := hp; rfl
 
-/-- **a failed key exchange still flushes the queue** (the code as written; reproduced on the real code, see
-    known_findings): after KEXINIT, one queued packet and a failing `enterKeyExchange`, the queued application
-    packet is on the wire behind our KEXINIT with no NEWKEYS, and `writeError` is nil again. The no-error theorem
-    `no_app_between_kexinit_and_newkeys` does not extend to the error path. -/
-theorem failed_rekey_flushes_pending :
-    ∃ ls e, erun einit ls = some e ∧ wireOK e.s.wire = false ∧ e.err = false ∧
-      e.s.wire = [.kexinit, .kexmsg, .app 0 0] := by
-  refine ⟨[.ok .kexinit, .ok .kexmsg, .ok (.submit 0), .finishErr], ?_⟩
-  simp [erun, estep, step, einit, init, isParked, maxPending, wireOK, wireScan, bump]
-
-/-- with an empty queue the failed key exchange does leave the error set -/
-theorem failed_rekey_without_pending_keeps_error (e e' : ESt) (h : estep e .finishErr = some e')
-    (hp : e.s.pending = []) : e'.err = true ∧ e'.s.wire = e.s.wire := by
+/-- **failed_rekey_writes_nothing**: when `enterKeyExchange` fails, the closing critical section pushes nothing
+    (the queued packets are dropped), `writeError` is set, `sentInitMsg` is cleared and every parked writer is
+    signalled — so by `error_releases_writers` they all leave with the error -/
+theorem failed_rekey_writes_nothing (e e' : ESt) (h : estep e .finishErr = some e') :
+    e'.s.wire = e.s.wire ∧ e'.err = true ∧ e'.s.pending = [] ∧ e'.s.sentInit = false ∧
+    ∀ p ∈ e'.s.parked, p.signalled = true := by
   simp only [estep] at h
   split at h
   · simp at h
   · simp only [Option.some.injEq] at h; subst h
-    simp [hp]
+    refine ⟨rfl, rfl, rfl, rfl, ?_⟩
+    intro p hp
+    simp at hp
+    obtain ⟨q, _, rfl⟩ := hp; rfl
+
+/-- once set, the error stays set and nothing more reaches the wire -/
+theorem err_sticky (e e' : ESt) (l : ELabel) (h : estep e l = some e') (he : e.err = true) :
+    e'.err = true ∧ e'.s.wire = e.s.wire := by
+  cases l with
+  | ok l =>
+    refine ⟨by rw [estep_ok_err e e' l h]; exact he, ?_⟩
+    cases l with
+    | wake w =>
+      simp only [estep, he, if_true] at h
+      split at h
+      · simp at h
+      · split at h
+        · simp at h
+        · simp only [Option.some.injEq] at h; subst h; rfl
+    | submit w => simp [estep, he] at h
+    | kexinit => simp [estep, he] at h
+    | kexmsg => simp [estep, he] at h
+    | newkeys => simp [estep, he] at h
+    | finish => simp [estep, he] at h
+  | fail => simp only [estep, Option.some.injEq] at h; subst h; exact ⟨rfl, rfl⟩
+  | submitErr w =>
+    simp only [estep, he, if_true, Option.some.injEq] at h; subst h; exact ⟨he, rfl⟩
+  | finishErr => simp [estep, he] at h
+
+/-- the wire predicate survives the error path: in every reachable state of the system with errors — including after
+    a failed key exchange — no application packet follows a KEXINIT of ours without our NEWKEYS in between -/
+def EWire (e : ESt) : Prop := (e.err = false → Inv e.s) ∧ wireOK e.s.wire = true
+
+theorem ewire_step (e e' : ESt) (l : ELabel) (h : estep e l = some e') (hi : EWire e) : EWire e' := by
+  obtain ⟨h1, h2⟩ := hi
+  by_cases he : e.err = true
+  · obtain ⟨a, b⟩ := err_sticky e e' l h he
+    exact ⟨(fun c => by simp [a] at c), by rw [b]; exact h2⟩
+  · have he' : e.err = false := by simpa using he
+    have hinv := h1 he'
+    cases l with
+    | ok l =>
+      have hs : ∃ s', step e.s l = some s' ∧ e'.s = s' := by
+        cases l <;> (simp only [estep, he', Bool.false_eq_true, if_false, Option.map_eq_some_iff] at h;
+                     obtain ⟨s', hs, rfl⟩ := h; exact ⟨s', hs, rfl⟩)
+      obtain ⟨s', hs, hs'⟩ := hs
+      have := inv_step e.s s' l hs hinv
+      unfold EWire
+      rw [hs']
+      exact ⟨fun _ => this, this.wire_ok⟩
+    | fail =>
+      simp only [estep, Option.some.injEq] at h; subst h
+      exact ⟨(fun c => by simp at c), h2⟩
+    | submitErr w => simp [estep, he'] at h
+    | finishErr =>
+      simp only [estep] at h
+      split at h
+      · simp at h
+      · simp only [Option.some.injEq] at h; subst h
+        exact ⟨(fun c => by simp at c), h2⟩
+
+theorem no_app_between_kexinit_and_newkeys_with_errors (ls : List ELabel) (e : ESt) (h : erun einit ls = some e) :
+    wireOK e.s.wire = true := by
+  have gen : ∀ (ls : List ELabel) (a b : ESt), EWire a → erun a ls = some b → EWire b := by
+    intro ls
+    induction ls with
+    | nil => intro a b hi h; simp [erun] at h; subst h; exact hi
+    | cons l ls ih =>
+      intro a b hi h
+      simp only [erun] at h
+      cases hs : estep a l with
+      | none => simp [hs] at h
+      | some t => simp only [hs] at h; exact ih t b (ewire_step a t l hs hi) h
+  exact (gen ls einit e ⟨fun _ => inv_init, rfl⟩ h).2
+
+example : (erun einit [.ok .kexinit, .ok .kexmsg, .ok (.submit 0), .finishErr]).map (fun e => (e.s.wire, e.err))
+    = some ([.kexinit, .kexmsg], true) := by decide
 
 end XC.C31
